@@ -172,6 +172,11 @@ class Atomizer:
     def is_resname(self, expr, depth=0):
         if self.phase == 'stream' and is_resname_stream(expr, self.var):
             return True
+        if self.phase == 'stream' and isinstance(expr, ast.Attribute) and expr.attr == 'name' \
+                and isinstance(expr.value, ast.Name) and expr.value.id in self.aliases:
+            a = self.aliases[expr.value.id]
+            if isinstance(a, ast.Attribute) and a.attr == 'res' and isinstance(a.value, ast.Name) and a.value.id == self.var:
+                return True
         if self.phase == 'descr' and is_resname_descr(expr, self.var):
             return True
         if isinstance(expr, ast.Name) and expr.id in self.aliases and depth < 3:
@@ -184,7 +189,8 @@ class Atomizer:
 
     def is_match_call(self, expr):
         return (isinstance(expr, ast.Call) and isinstance(expr.func, ast.Attribute) and expr.func.attr == 'match'
-                and self.is_matcher(expr.func.value) and len(expr.args) == 1 and self.is_resname(expr.args[0]))
+                and (self.is_matcher(expr.func.value) or is_matcher_ctor(self.res, expr.func.value))
+                and len(expr.args) == 1 and self.is_resname(expr.args[0]))
 
     def atoms(self, test, pol, depth=0):
         """-> list of (atom, polarity)"""
@@ -512,16 +518,11 @@ def descriptor_aliases(fi, pkg_param='package'):
     facts = Facts(fi, include_nested=False)
     roots = {pkg_param}
     names = set()
-    for nm in facts.defs:
-        for v in facts.defs[nm]:
-            b = base_name(v) if not isinstance(v, ast.Name) else v.id
-            if b in roots or b in names:
-                names.add(nm)
     # iterate to fixpoint
     changed = True
     while changed:
         changed = False
-        for nm, vals in facts.defs.items():
+        for nm, vals in facts.assigns.items():
             if nm in names or nm in roots:
                 continue
             for v in vals:
